@@ -1,5 +1,6 @@
 import Rivaas.Lemmas.BindAll
 import Rivaas.Spec.BindAll
+import Rivaas.Spec.BindNestJSON
 import Rivaas.Props.C04
 import Rivaas.Props.C04Body
 /-
@@ -161,5 +162,44 @@ theorem appRun_no_body_tags (P : Params) (fs : List Fld) (init : Val) (h : Http)
   | ok v => simp [hb, ofOutcome]
   | err e => rfl
   | panic => rfl
+
+end Rivaas.C04
+
+namespace Rivaas.C04
+open Rivaas Rivaas.Bind
+
+/-! ## the nested-struct JSON shortcut -/
+
+/-- **Where no string decodes as a nested struct, `bindJ` is `bind`** … -/
+theorem bindJ_eq_bind (P : Params) (cfg : Cfg) (tag : Tag) (ty : Ty) (init : Val) (src : Src)
+    (h : ∀ s, (P s).nj = none) : bindJ P cfg tag ty init src = bind P cfg tag ty init src := by
+  unfold bindJ Rivaas.Bind.bind
+  cases ty with
+  | struct fs => rw [lemma_bindAtJ_eq P cfg tag h]
+  | _ => rfl
+
+/-- … and the shortcut oracle is the plain oracle -/
+theorem specOKJ_eq_specOK (P : Params) (cfg : Cfg) (tag : Tag) (fs : List Fld) (init : Val) (s : Src) (o : Spec.Obs)
+    (h : ∀ x, (P x).nj = none) : Spec.specOKJ P cfg tag fs init s o = Spec.specOK P cfg tag fs init s o := by
+  have hall : (Spec.shortcuts P tag fs s).all Option.isNone = true := by
+    simp only [Spec.shortcuts, List.all_map, List.all_eq_true]
+    intro f _
+    simp only [Function.comp, Spec.shortcutAt, h]
+    split
+    · rfl
+    · split
+      · rfl
+      · split
+        · rfl
+        · split <;> simp
+  simp [Spec.specOKJ, hall]
+
+/-- so `bind_meets_spec` carries over to every case without a shortcut -/
+theorem bindJ_meets_spec_no_shortcut (P : Params) (hP : FloatSane P) (cfg : Cfg) (tag : Tag) (fs : List Fld) (ivs : List Val)
+    (src : Src) (hw : wts fs ivs = true) (hg : Spec.inGrammarFs fs = true) (hs : Spec.srcOK src = true)
+    (h : ∀ s, (P s).nj = none) :
+    Spec.specOKJ P cfg tag fs (.struct ivs) src (toObs (bindJ P cfg tag (.struct fs) (.struct ivs) src)) = true := by
+  rw [bindJ_eq_bind P cfg tag _ _ _ h, specOKJ_eq_specOK P cfg tag fs _ src _ h]
+  exact bind_meets_spec P hP cfg tag fs ivs src hw hg hs
 
 end Rivaas.C04
